@@ -273,7 +273,7 @@ bool exec_ranked(World<T>& W, std::vector<std::string>& w, std::string& out) {
   const std::string& op = w[0];
   std::ostringstream os;
   // ---------------- statements on an Array target
-  if (op == "asg" || op == "cadd" || op == "csub" || op == "cmul" || op == "cdiv" || op == "sca" || op == "whr" || op == "weo") {
+  if (op == "asg" || op == "asge" || op == "cadd" || op == "csub" || op == "cmul" || op == "cdiv" || op == "sca" || op == "whr" || op == "weo") {
     int lid = idof(w[1]);
     if (!leaf_ok<R>(W, lid)) return false;
     VW<T>& lv = W.views[lid];
@@ -324,10 +324,14 @@ bool exec_ranked(World<T>& W, std::vector<std::string>& w, std::string& out) {
       out = os.str() + verdict(W, expected); return true;
     }
     Shape sh; if (!parse_shape(t, sh, false) || t.more()) return false;
-    int kind = op == "asg" ? 0 : op == "cadd" ? 1 : op == "csub" ? 2 : op == "cmul" ? 3 : 4;
+    int kind = (op == "asg" || op == "asge") ? 0 : op == "cadd" ? 1 : op == "csub" ? 2 : op == "cmul" ? 3 : 4;
     if (oracle_expected<R, T>(W, kind, d, wl, rl, 0, &sh, 0, 0, 0, expected)) { out = "hazard"; return true; }
     int aflag = 0; bool done;
-    if (kind == 0) done = with_expr<M_ASG, R>(W, sh, [&](const auto& e) { aflag = aliased(e, pb, pe); Lh = e; return true; });
+    // asge: the right-hand side is an rvalue Array (eval(e) returns a temporary that owns its data): move assignment,
+    // which may steal the temporary's data only if the target owns unshared storage — a view or a storage-less target
+    // must be stored into in place
+    if (op == "asge") done = with_expr<M_ASG, R>(W, sh, [&](const auto& e) { aflag = aliased(e, pb, pe); Lh = eval(e); return true; });
+    else if (kind == 0) done = with_expr<M_ASG, R>(W, sh, [&](const auto& e) { aflag = aliased(e, pb, pe); Lh = e; return true; });
     else if (kind == 4) done = with_expr<M_DIV, R>(W, sh, [&](const auto& e) { aflag = aliased(e, pb, pe); Lh /= e; return true; });
     else done = with_expr<M_CMP, R>(W, sh, [&](const auto& e) { aflag = aliased(e, pb, pe); do_op(kind, Lh, e); return true; });
     if (!done) return false;
